@@ -22,15 +22,16 @@ from . import AnalysisError
 
 
 class Node(object):
-    __slots__ = ('id', 'kind', 'ast', 'succ', 'pred', 'note')
+    __slots__ = ('id', 'kind', 'ast', 'succ', 'pred', 'note', 'cfg')
 
-    def __init__(self, nid, kind, node=None, note=None):
+    def __init__(self, nid, kind, node=None, note=None, cfg=None):
         self.id = nid
         self.kind = kind
         self.ast = node
         self.succ = []
         self.pred = []
         self.note = note
+        self.cfg = cfg
 
     @property
     def lineno(self):
@@ -110,6 +111,7 @@ class CFG(object):
         self.func = func
         self.name = name or (func.fq if func is not None else '<block>')
         self.nodes = []
+        self._copy_env = None
         self.entry = self._new('entry')
         self.exit = self._new('exit')
         self.raise_exit = self._new('raise')
@@ -120,7 +122,7 @@ class CFG(object):
 
     # -- construction helpers ---------------------------------------------
     def _new(self, kind, node=None, note=None):
-        new = Node(len(self.nodes), kind, node, note)
+        new = Node(len(self.nodes), kind, node, note, self)
         self.nodes.append(new)
         return new
 
